@@ -327,11 +327,6 @@ static int recFips(void)
 }
 
 /* ------------------------------------------------------------------ bash256 / bash384 / bash512 */
-extern bool_t bashHashStepV2(const octet hash[], size_t hash_len, void* state) __attribute__((weak));
-#define XSTR(x) #x
-#define STR(x) XSTR(x)
-/* a StepV2 macro is usable if its expansion does not name the (nonexistent) function bashHashStepV2, or if that function exists */
-static int v2Usable(const char* expansion) { return strstr(expansion, "bashHashStepV2") == 0 || bashHashStepV2 != 0; }
 typedef struct {
 	size_t nnn;
 	void (*start)(void*); void (*stepH)(const void*, size_t, void*); void (*stepG)(octet*, void*); void (*stepG2)(octet*, size_t, void*);
@@ -342,20 +337,11 @@ typedef struct {
 	static void stepH##N(const void* b, size_t n, void* st) { bash##N##StepH(b, n, st); } \
 	static void stepG##N(octet* h, void* st) { bash##N##StepG(h, st); } \
 	static void stepG2##N(octet* h, size_t n, void* st) { bash##N##StepG2(h, n, st); } \
-	static int stepV2##N(const octet* h, size_t n, void* st) { if (!v2Usable(STR(bash##N##StepV2(h, n, st)))) return -1; return bash##N##StepV2(h, n, st) ? 1 : 0; } \
+	static int stepV##N(const octet* h, void* st) { return bash##N##StepV(h, st) ? 1 : 0; } \
+	static int stepV2##N(const octet* h, size_t n, void* st) { return bash##N##StepV2(h, n, st) ? 1 : 0; } \
 	static err_t hash##N(octet* h, const void* s, size_t n) { return bash##N##Hash(h, s, n); } \
 	static size_t keep##N(void) { return bash##N##_keep(); }
 FAM(256) FAM(384) FAM(512)
-static int stepV256(const octet* h, void* st) { return bash256StepV(h, st) ? 1 : 0; }
-static int stepV512(const octet* h, void* st) { return bash512StepV(h, st) ? 1 : 0; }
-static int stepV384(const octet* h, void* st)
-{
-#ifdef bash384StepV
-	return bash384StepV(h, st) ? 1 : 0;
-#else
-	(void)h; (void)st; return -1;		/* the family has no such macro */
-#endif
-}
 static const fam_t fams[3] = {
 	{256, start256, stepH256, stepG256, stepG2256, stepV256, stepV2256, hash256, keep256},
 	{384, start384, stepH384, stepG384, stepG2384, stepV384, stepV2384, hash384, keep384},
@@ -370,7 +356,6 @@ static void recBashNNN(void)
 		size_t counts[] = {0, 1, blk - 1, blk, blk + 1, 2 * blk, 2 * blk + 7};
 		size_t mix[4][8] = {{1, 2, 7, 8, 9, 31, 32, 33}, {blk - 1, 1, blk, blk + 1}, {0, 33, 0, blk}, {blk, blk}};
 		size_t mixn[4] = {8, 4, 4, 2}, hlens[4] = {0, 1, hl - 1, hl};
-		int missV = 0, missV2 = 0;
 		for (i = 0; i < 7; ++i)
 		{
 			octet* in = (octet*)xalloc(counts[i]); octet* h = (octet*)xalloc(hl); err_t e;
@@ -398,18 +383,13 @@ static void recBashNNN(void)
 			fm->stepG(g, st);
 			memcpy(bad, g, hl); bad[vxRandN(hl)] ^= (octet)(1u << vxRandN(8));
 			v = fm->stepV(g, st); vbad = fm->stepV(bad, st);
-			if (v < 0) { missV = 1; v = bashHashStepV(g, hl, st) ? 1 : 0; vbad = bashHashStepV(bad, hl, st) ? 1 : 0; }
 			if (hlen) { memcpy(bad2, g, hlen); bad2[vxRandN(hlen)] ^= (octet)(1u << vxRandN(8)); }
 			v2 = fm->stepV2(g, hlen, st); v2bad = hlen ? fm->stepV2(bad2, hlen, st) : 0;
-			if (v2 < 0) { missV2 = 1; v2 = bashHashStepV(g, hlen, st) ? 1 : 0; v2bad = hlen ? (bashHashStepV(bad2, hlen, st) ? 1 : 0) : 0; }
 			jBegin(); jStr("op", "bashNNN"); jInt("nnn", (long long)fm->nnn); jStr("via", "Steps"); jSizes("frags", mix[i], mixn[i]); jOct("in", in, total);
 			jInt("pre", (long long)pre); jOct("g1", g1, hl); jInt("hlen", (long long)hlen); jOct("g2", g2, hlen); jOct("g", g, hl);
 			jInt("v", v); jInt("vbad", vbad); jInt("v2", v2); jInt("v2bad", v2bad); jEnd();
 			free(in); free(st); free(g1); free(g2); free(g); free(bad); free(bad2);
 		}
-		/* a macro of the family that cannot be used is a line of its own (rejected by the specification) */
-		if (missV) { jBegin(); jStr("op", "bashNNN"); jInt("nnn", (long long)fm->nnn); jStr("via", "StepV"); jInt("missing", 1); jEnd(); }
-		if (missV2) { jBegin(); jStr("op", "bashNNN"); jInt("nnn", (long long)fm->nnn); jStr("via", "StepV2"); jInt("missing", 1); jEnd(); }
 	}
 }
 
